@@ -72,7 +72,9 @@ SamePrev(s, prev) == IF ~s.rep THEN TRUE
                      ELSE IF HasRef(s) THEN prev.out = "ok" /\ Len(prev.eig) > 0
                                             /\ EigClose(s.eig, prev.eig, RefLists(s.m))
                      ELSE s.eqPrev
-Good(s, prev) == s.out = "ok" /\ SameRef(s) /\ SamePrev(s, prev) /\ s.argsSame
+(* prevOk: the previous step was judged "ok"; after a listed finding (kf) the repetition is only compared *)
+(* with the reference, not with the deviating first call                                                 *)
+Good(s, prev, prevOk) == s.out = "ok" /\ SameRef(s) /\ (~prevOk \/ SamePrev(s, prev)) /\ s.argsSame
 
 ClassFailDevs(k, s) == {f.dev : f \in {g \in FailTable : g.dev \in Deviations /\ g.cls = Class(k) /\ g.m \in {s.m, "*"}
                                                        /\ g.et = s.etype /\ g.em = s.emsg}}
@@ -85,7 +87,7 @@ BadValues(s, dAfter) == {Pair(s.vals[i]) : i \in {q \in 1..Len(s.vals) :
                             /\ Pair(s.vals[q]) \in DOMAIN dAfter
                             /\ dAfter[Pair(s.vals[q])] = "Def"
                             /\ ~s.vals[q][3]}}
-Judge(k, mode, s, prev, o, dAfter) ==
+Judge(k, mode, s, prev, o, dAfter, prevOk) ==
     LET drift == ~(AttrSet(s.rbw) \subseteq MayRead(k, s.m) /\ AttrSet(s.writes) \subseteq MayWrite(k, s.m))
         driftWhat == <<AttrSet(s.rbw) \ MayRead(k, s.m), AttrSet(s.writes) \ MayWrite(k, s.m)>>
         mk(v, devs, why) == [m |-> s.m, v |-> v, devs |-> devs, why |-> why, spec |-> <<o.out, o.attr>>,
@@ -95,7 +97,7 @@ Judge(k, mode, s, prev, o, dAfter) ==
        THEN mk("fail", {}, "outcome depends on another object evaluated earlier in the same process")
        ELSE IF mode = "abstract" /\ ~drift /\ BadValues(s, dAfter) # {}
        THEN mk("fail", {}, <<"derived attribute holds a value that depends on the call history", BadValues(s, dAfter)>>)
-       ELSE IF Good(s, prev) THEN mk("ok", {}, "")
+       ELSE IF Good(s, prev, prevOk) THEN mk("ok", {}, "")
        ELSE IF mode = "concrete"
        THEN IF s.out = "exc"
             THEN IF ClassFailDevs(k, s) # {} THEN mk("kf", ClassFailDevs(k, s), "listed failure")
@@ -135,7 +137,7 @@ Step == /\ l <= Len(Trace) /\ j >= 1 /\ j <= Len(Ev.steps)
                o == Exec(kind, s.m, derived, ckey, defn)
                repaired == s.out = "ok" /\ o.out = "fails" /\ Pseudo(kind, o.attr)
            IN /\ IF repaired THEN CallRepaired(s.m) ELSE Call(s.m)
-              /\ acc' = Append(acc, Judge(kind, Ev.mode, s, prev, AsState(last'), derived'))
+              /\ acc' = Append(acc, Judge(kind, Ev.mode, s, prev, AsState(last'), derived', j = 1 \/ acc[j-1].v = "ok"))
         /\ j' = j + 1 /\ UNCHANGED <<l, n>>
 End == /\ l <= Len(Trace) /\ j = Len(Ev.steps) + 1
        /\ Verdict(Ev.id, Overall(acc, Ev.mode), acc)
